@@ -399,8 +399,10 @@ func (r *c08Runner) Step(t []string, raw string) string {
 		trace = fmt.Sprintf("%016x:%d:%d", probe.hash, probe.events, probe.max)
 	}()
 	tree := "-"
+	rawErrs := 0
 	if strings.TrimSpace(text) != "" {
-		tree, _ = antlrTreeTyped(strings.TrimSpace(text))
+		// second value: recognition errors (lexer + parser) of the raw ANTLR run, counted by a listener of our own
+		tree, rawErrs = antlrTreeTyped(strings.TrimSpace(text))
 	} else {
 		r.stats.Inc("blank_inputs")
 	}
@@ -431,8 +433,8 @@ func (r *c08Runner) Step(t []string, raw string) string {
 	older := frontend.DefaultCypherContext()
 	_ = frontend.DefaultCypherContext()
 	o := c08Parse(older, text)
-	return fmt.Sprintf("n=%s/%d d=%s/%d o=%s/%d nsyn=%d nother=%d nunsup=[%s] dsyn=%d dother=%d dfilt=%d dunsup=[%s] inc=[%s] slow=%d trace=%s tree=%s",
-		n.cls, n.isNil, d.cls, d.isNil, o.cls, o.isNil, n.syn, n.other, strings.Join(n.unsup, ","), d.syn, d.other, d.filt, strings.Join(d.unsup, ","),
+	return fmt.Sprintf("n=%s/%d d=%s/%d o=%s/%d raw=%d nsyn=%d nother=%d nunsup=[%s] dsyn=%d dother=%d dfilt=%d dunsup=[%s] inc=[%s] slow=%d trace=%s tree=%s",
+		n.cls, n.isNil, d.cls, d.isNil, o.cls, o.isNil, rawErrs, n.syn, n.other, strings.Join(n.unsup, ","), d.syn, d.other, d.filt, strings.Join(d.unsup, ","),
 		strings.Join(n.inc, ","), slow, trace, tree)
 }
 
@@ -680,6 +682,49 @@ func (c08Suite) Gen(rng *Rng, tier string, w *bufio.Writer, stats *Stats) {
 		c := Pick(rng, corpus)
 		p := rng.Intn(len(c.Query) + 1)
 		emit("utf8:"+c.Source, c.Query[:p]+Pick(rng, bad)+c.Query[p:])
+	}
+	// (a) stray characters (no lexer rule) attached to token edges of corpus queries
+	stats.Counters["stray_character_classes"] = int64(len(strayChars()))
+	for ci, c := range corpus {
+		if thorough && ci%4 == 0 {
+			for _, s := range strayInsertions(rng, c.Query, 0, true) {
+				emit("stray:"+c.Source, s)
+			}
+			continue
+		}
+		k := 1
+		if thorough {
+			k = 4
+		}
+		for _, s := range strayInsertions(rng, c.Query, k, false) {
+			emit("stray:"+c.Source, s)
+		}
+	}
+	for _, ch := range strayChars() {
+		emit("stray:class", "match (n) return n"+ch)
+		emit("stray:class", "match (n"+ch+") where n.a = 1"+ch+" return n")
+		emit("stray:class", ch+"match (n) return n")
+	}
+	// (b) numeric literals over the whole double range and around +-2^63 in every literal position
+	npos := 2
+	if thorough {
+		npos = 9
+	}
+	for _, s := range numericCases(rng, npos) {
+		emit("num", s)
+	}
+	// (c) multi-byte / invalid UTF-8 payloads of 20..200 bytes inside every unsupported construct and error path
+	npay := 3
+	if thorough {
+		npay = 40
+	}
+	pcs, uncovered := payloadCases(rng, npay)
+	for _, s := range pcs {
+		emit("payload", s)
+	}
+	stats.Counters["unsupported_rules_without_template"] = int64(len(uncovered))
+	for _, u := range uncovered {
+		stats.Inc("untemplated:" + u)
 	}
 	// huge literals
 	sizes := []int{1 << 10, 1 << 14}
